@@ -456,6 +456,15 @@ def case_to_json(case):
             "casefile": gen.CaseWriter.render(case)}
 
 
+def sample_to_json(case):
+    """A case as it is shown in the evidence file: abbreviated (the replay files hold complete cases)."""
+    cid, stream, kind, params, strs, ops = case
+    cut = lambda x: x if len(x) <= 64 else x[:64] + "...(%d chars)" % len(x)
+    return {"id": cid, "stream": stream, "kind": kind, "params": params, "n_strings": len(strs), "n_ops": len(ops),
+            "strings_hex_first": [cut(s.hex()) for s in strs[:6]],
+            "ops_first": [[cut(str(a)) for a in o[:6]] for o in ops[:6]]}
+
+
 def case_from_json(j):
     return (j["id"], j["stream"], j["kind"], j["params"], [bytes.fromhex(s) for s in j["strings_hex"]],
             [list(o) for o in j["ops"]])
@@ -544,7 +553,7 @@ def check(prop, tier, seed):
                 nbad += 1
                 mismatches.append((ss, c, d))
         if ss.cases and len(samples) < 6:
-            samples.append(case_to_json(ss.cases[rng.below(len(ss.cases))]))
+            samples.append(sample_to_json(ss.cases[rng.below(len(ss.cases))]))
         log("[%s] stream %-14s cfg=%-5s cases=%d mismatches=%d (%.1fs)" % (prop, ss.name, ss.cfg, len(ss.cases), nbad, time.time() - ts))
 
     # classify mismatches
